@@ -2,6 +2,7 @@ package main
 
 import (
 	"encoding/json"
+	"hash/crc32"
 	"fmt"
 	"go/ast"
 	"go/types"
@@ -589,12 +590,55 @@ func (ex *Exec) modelFor(c *Term) ([]uint64, []ObsVal, bool) {
 			k++
 		}
 	}
+	// Observations are evaluated under the model with every digest variable replaced by the real CRC-32
+	// of its message under that model (the solver only knows digests as collision-free constants; a
+	// directory image written for a native replay must carry checksums the real code accepts).
+	full := map[string]uint64{}
+	kk := 0
+	for _, in := range ex.inputs {
+		if in.T != nil && in.T.emitted {
+			full[in.T.name] = vals[kk]
+			kk++
+		}
+	}
+	var ackRefs []string
+	for _, t := range ex.ackVars {
+		if t.emitted {
+			ackRefs = append(ackRefs, t.name)
+		}
+	}
+	if av, ok := ex.s.Values(ackRefs); ok {
+		for i, n := range ackRefs {
+			full[n] = av[i]
+		}
+	}
+	for _, app := range ex.crcApps {
+		if app.t.isConst || app.m.zeros > 0 {
+			continue
+		}
+		raw := make([]byte, len(app.m.msg))
+		okm := true
+		for i, bt := range app.m.msg {
+			v, ok := ex.pool.Eval(bt, full, map[*Term]uint64{})
+			if !ok {
+				okm = false
+				break
+			}
+			raw[i] = byte(v)
+		}
+		if okm {
+			full[app.t.name] = uint64(crc32.ChecksumIEEE(raw))
+		}
+	}
 	var obs []ObsVal
 	for _, r := range refs {
 		var sbv strings.Builder
 		for j := 0; j < r.n; j++ {
 			t := obsTerms[r.first+j]
 			v := vals[k+r.first+j]
+			if ev, ok := ex.pool.Eval(t, full, map[*Term]uint64{}); ok && t.w != FW {
+				v = ev
+			}
 			switch r.kind {
 			case "bytes":
 				fmt.Fprintf(&sbv, "%02x", v)
@@ -681,5 +725,175 @@ type Access struct {
 	Where string
 }
 
-func (ex *Exec) access(c *Cell, write bool)           {}
-func (ex *Exec) accessMap(m *MapV, k Value, write bool) {}
+// ---- lock discipline (C14 / C17 / C18) ----
+//
+// While tracing, every load and store of a location that was reachable from the shared state when
+// tracing started (the DB object graph and the package-level variables of the code under test) is
+// checked against the lock held at that instant:
+//   * a write needs the write lock;
+//   * a read needs the read or the write lock (reads of the immutable options are exempt);
+//   * a write to a package-level variable is a violation under any per-database lock, because two
+//     databases in one process take different locks.
+// Accesses performed by harness / environment-stub code are not counted; the file-system stubs report
+// file reads and writes through vFileAccess.
+
+func (ex *Exec) lockMode() int {
+	mode := 0
+	for _, st := range ex.locks {
+		if st.writer {
+			return 2
+		}
+		if st.readers > 0 {
+			mode = 1
+		}
+	}
+	return mode
+}
+
+func (ex *Exec) inHarnessCode() bool {
+	fr := ex.cur
+	if fr == nil || fr.fn == nil {
+		return true
+	}
+	if fr.fn.Pkg == nil || !strings.HasPrefix(fr.fn.Pkg.Pkg.Path(), nutsMod) {
+		// library code called by nutsdb (sort.Sort swapping elements, bytes.Buffer ...): attribute to the caller
+		for fr != nil && (fr.fn == nil || fr.fn.Pkg == nil || !strings.HasPrefix(fr.fn.Pkg.Pkg.Path(), nutsMod)) {
+			fr = fr.caller
+		}
+		if fr == nil {
+			return true
+		}
+	}
+	f := fr.fn
+	for f.Parent() != nil {
+		f = f.Parent()
+	}
+	pos := f.Pos()
+	if !pos.IsValid() {
+		return false
+	}
+	return strings.Contains(ex.eng.prog.Fset.Position(pos).Filename, "zz_verif_")
+}
+
+func (ex *Exec) inHarnessFrame(fr *Frame) bool {
+	if fr == nil || fr.fn == nil {
+		return true
+	}
+	f := fr.fn
+	for f.Parent() != nil {
+		f = f.Parent()
+	}
+	pos := f.Pos()
+	if !pos.IsValid() {
+		return false
+	}
+	return strings.Contains(ex.eng.prog.Fset.Position(pos).Filename, "zz_verif_")
+}
+
+func (ex *Exec) disciplineViolation(kind string, tag string) {
+	w := ex.where()
+	fn := w
+	if i := strings.Index(fn, " ("); i >= 0 {
+		fn = fn[:i]
+	}
+	fn = strings.Replace(fn, "github.com/xujiajun/nutsdb", "nutsdb", 1)
+	id := kind + ":" + fn
+	if ex.raceSeen == nil {
+		ex.raceSeen = map[string]bool{}
+	}
+	if ex.raceSeen[id] {
+		return
+	}
+	ex.raceSeen[id] = true
+	ex.recordViolation(id, kind+" of shared state ("+tag+") at "+w, ex.pool.Bool(true))
+}
+
+func (ex *Exec) checkAccess(write, global bool, tag string) {
+	if ex.inHarnessCode() {
+		return
+	}
+	mode := ex.lockMode()
+	switch {
+	case write && global:
+		ex.disciplineViolation("write-to-package-variable", tag)
+	case write && mode != 2:
+		if mode == 1 {
+			ex.disciplineViolation("write-under-read-lock", tag)
+		} else {
+			ex.disciplineViolation("write-without-lock", tag)
+		}
+	case !write && mode == 0 && !global:
+		if strings.HasPrefix(tag, "opt") {
+			return
+		}
+		ex.disciplineViolation("read-without-lock", tag)
+	}
+}
+
+func (ex *Exec) access(c *Cell, write bool) {
+	if !ex.tracing || c == nil || !c.shared {
+		return
+	}
+	ex.checkAccess(write, c.global, c.tag)
+}
+
+func (ex *Exec) accessMap(m *MapV, k Value, write bool) {
+	if !ex.tracing || m == nil || !m.shared {
+		return
+	}
+	ex.checkAccess(write, false, "map")
+}
+
+// share marks everything reachable from v as shared state.
+func (ex *Exec) share(v Value, tag string, seen map[interface{}]bool) {
+	switch x := v.(type) {
+	case *Cell:
+		if x == nil || seen[x] {
+			return
+		}
+		seen[x] = true
+		x.shared = true
+		if x.tag == "" {
+			x.tag = tag
+		}
+		ex.share(x.v, tag, seen)
+	case *StructV:
+		for _, c := range x.f {
+			ex.share(c, tag, seen)
+		}
+	case *ArrayV:
+		if seen[x] {
+			return
+		}
+		seen[x] = true
+		for _, c := range x.e {
+			ex.share(c, tag, seen)
+		}
+	case *SliceV:
+		if x != nil && x.arr != nil {
+			ex.share(x.arr, tag, seen)
+		}
+	case *MapV:
+		if x == nil || seen[x] {
+			return
+		}
+		seen[x] = true
+		x.shared = true
+		for _, k := range x.keys {
+			ex.share(k, tag, seen)
+		}
+		for _, c := range x.vals {
+			ex.share(c, tag, seen)
+		}
+	case *IfaceV:
+		if x != nil {
+			ex.share(x.v, tag, seen)
+		}
+	case *FuncV:
+		if x != nil {
+			for _, f := range x.free {
+				ex.share(f, tag, seen)
+			}
+		}
+	}
+}
